@@ -603,7 +603,8 @@ static inline int ubuf_block_check_size(struct ubuf *ubuf,
             struct ubuf_block *block = ubuf_block_from_ubuf(ubuf);
             *size_p = block->total_size - *offset_p;
         }
-    }
+    } else if (unlikely(*offset_p < 0 && *size_p > -*offset_p))
+        return UBASE_ERR_INVALID;
     return UBASE_ERR_NONE;
 }
 
